@@ -127,6 +127,13 @@ Section Exec.
         let code := match a with Some n => u8 n | None => last (sh w) end in
         Out (code, ExitShell) w
     | LSet o b => Out success (upd_sh (set_opt o b) w)
+    | LAssign s =>
+        (* assignment-only simple command (interp.rs, "No command to run"): the status is the one left by
+           the last command substitution iff the expansion called [set_last_exit_status] at all
+           ([last_exit_status_change_count] moved), else 0 *)
+        let '(changes, w1) := match s with Some n => (1, set_last (u8 n) w) | None => (0, w) end in
+        let w2 := if Nat.eqb changes 0 then set_last 0 w1 else w1 in
+        Out (last (sh w2), Normal) w2
     | LCall f =>
         match lookup f (funs (sh w)) with
         | None => Out (to_u8 err_command_not_found, Normal) w
@@ -164,8 +171,12 @@ Section Exec.
     end.
 
   (** compound commands after which bash itself never applies errexit *)
-  Definition quiet_compound (c : cmd) : bool :=
-    match c with Brace _ | If _ _ _ | Loop _ _ _ | For _ _ _ | Case _ => true | _ => false end.
+  Fixpoint quiet_compound (c : cmd) : bool :=
+    match c with
+    | Brace _ | If _ _ _ | Loop _ _ _ | For _ _ _ | Case _ => true
+    | Redir _ c => quiet_compound c      (* [is_lone_quiet_compound_command] ignores the redirect list *)
+    | _ => false
+    end.
 
   (** [impl Execute for ast::Pipeline].
       - every stage of a multi-command pipeline runs in its own copy of the shell, so only the exit
@@ -279,6 +290,7 @@ Section Exec.
     | For _ n b => bind (for_iter n b sup success w) finish
     | Case arms => bind (case_iter arms false sup success w) finish
     | FunDef f body => finish success (upd_sh (define f body) w)
+    | Redir _ c => rec c sup w     (* [Command::Compound(c, Some(redirects))]: set the redirects up, run [c] *)
     end.
 
   (** one iteration of [impl Execute for (WhileOrUntil, &WhileOrUntilClauseCommand)] *)
